@@ -18,12 +18,20 @@ GEN     Gen_Heap exports every operation sequence of length N (quick 3, thorough
         of dns.TypeToRR (fully populated), an unknown type, a registered PrivateRR and whole messages (Copy, CopyTo into a
         used message), and on VARIANTS of every type: #lc (lower-case owner, mixed-case RDATA names, TTL = OrigTtl: the shape in which
         signing needs no header rewrite), #unsorted (every list reversed: SVCB parameters, options, prefixes, type bitmaps, texts),
+        #altspell (every RDATA field with more than one accepted spelling in a hand-built record in ANOTHER one than the canonical
+        spelling Unpack and the parser give: the empty NSEC3/NSEC3PARAM salt as "-", hex fields in upper case, base32hex fields in
+        lower case, the first letter of an embedded name as \\DDD -- the spellings that tempt an operation to normalise in place),
         #emptycap / #emptyall (slices emptied but keeping their capacity; the Unpack input then has zero-length fields followed
         by more octets); after each step: real regions (address, cap) pairwise disjoint where the spec's are, deep snapshots
         changed exactly where the spec says, copy == source; Mutate writes EVERY reachable cell (scalar, string, slice
         element, slice header, pointer, interface, and an append within the capacity of every slice -- the exact snapshot shows
         the hidden capacity [len:cap]) one at a time and looks at all other objects and the buffer;
         Scribble inverts every octet of the buffer.
+        A read-only step is executed in every ARGUMENT STATE the vector lists (Gen_Heap!ROStates): Verify with the TTL of the
+        RRset and of the RRSIG equal to the signature's original TTL (just signed), below it (aged in a cache), above it (signed
+        over an equal RRset with a lower TTL: RFC 4035 5.3.3 territory; the verification SUCCEEDS in these three -- the evidence
+        notes verifications_succeeded_by_state) and with one octet of the signature changed (it fails); the RRset is snapshotted
+        by the step, the RRSIG and the key around each call.
         Alphabet "copyto" (quick 252 sequences of length 3, thorough 4020 of length 4): every sequence with a CopyTo into a
         live object over {Copy, Alias(original|latest, all|one), CopyTo(a, b) for all ordered pairs whose target shares memory
         with nobody but -- possibly -- the source, Mutate, Pack, Copy, Unpack}  ->
@@ -57,6 +65,9 @@ Seeded changes /verif/seeded/C16-{1,2,3} (all exit 1):
   C16-17 CopyTo rebuilds the sections inside the target's arrays   GEN copyto/msg-answer-shared, copyto/msg-question-shared, copyto/<record>-shared,
                                                       copyto/changes-source:* (alphabet "copyto": Alias; CopyTo);
                                                       TV copyto/msg-answer-shared, copyto/msg-question-shared (copyto events)
+  C16-19 generated pack() of NSEC3/NSEC3PARAM rewrites a "-" salt to ""   GEN readonly/pack-mutates:nsec3, :nsec3param on NSEC3#altspell / NSEC3PARAM#altspell; TV ro events on the variants
+  C16-20 RRSIG.Verify lowers the TTLs of its arguments to OrigTtl after a successful verification
+                                                      GEN readonly/verify-mutates:<type> (the RRset, state "ttl>orig"), readonly/verify-mutates:rrsig-argument; TV ro events
 Mutant copyto-reuses-question-array.diff (r1.Question = append(r1.Question[:0], ...)): GEN copyto/msg-question-shared (Alias all / one on the
                                                       question-only shapes); TV copyto/msg-question-shared
 """
